@@ -13,6 +13,7 @@ import (
 	"go/token"
 	"go/types"
 	"math/big"
+	"os"
 	"sort"
 	"strings"
 
@@ -259,7 +260,12 @@ func (ex *Exec) Run() (err error) {
 				err = fmt.Errorf("unsupported: %s", u.msg)
 				return
 			}
-			panic(r)
+			// a value of a shape the executor has no case for (type assertion, nil map ...): the
+			// function is outside the verified subset - reported as a generation error, never a crash
+			if os.Getenv("GOVC_PANIC") != "" {
+				panic(r)
+			}
+			err = fmt.Errorf("unsupported: construct outside the verified subset (executor: %v)", r)
 		}
 	}()
 	fn := ex.fn
